@@ -13,7 +13,7 @@ RULE = ("(point, resolution) pairs: points from a mixture (uniform sphere, log-s
         "T(k,r)=0.05/k^2+2e-3/k+1e-14/L(r) cell widths. Non-trivial = within 0.25 cell widths of an edge, or colatitude<10deg, "
         "or within 1e-3 rad of a frame point, or |lon|>180; distinct by (lon,lat,res). Further stages: points around places where "
         "lonlat_to_cell's own branches flip (coverage-directed, lib/boundary.py); a dense res-0 sweep along all 30 face edges "
-        "(2500/16000 positions x 14 offsets 1e-9..1e-3 rad) judged exactly by nearest face centre; 90 points just inside the "
+        "(2500/16000 positions x 14 offsets 3e-9..1e-3 rad) judged exactly by nearest face centre; 90 points just inside the "
         "five edges of each generated cell (latitude-uniform and adversarial bases).")
 ASSUMPTIONS = ["the k=64 ring follows the true curved edge to 4.3e-5 cell widths (7.6x the worst deviation measured)",
                "points closer than that to an edge may legitimately be given to either cell (edge_ambiguous, counted)"]
@@ -183,7 +183,7 @@ def judge_face(case, col=None):
 def stage_faces(ctx):
     from lib import gens as _g
     N = 2500 if ctx.tier == "quick" else 16000
-    offsets = [s * d for d in (1e-9, 1e-7, 1e-6, 1e-5, 3e-5, 1e-4, 1e-3) for s in (1, -1)]
+    offsets = [s * d for d in (3e-9, 1e-7, 1e-6, 1e-5, 3e-5, 1e-4, 1e-3) for s in (1, -1)]
     edges = _g._EDGES
     n = 0
     for e in range(len(edges))[ctx.shard::ctx.nshards]:
@@ -199,7 +199,7 @@ def stage_faces(ctx):
                 judge_face({"lon": lon, "lat": lat, "res": 0, "exact_face": True})
                 n += 1
     ctx.col.bulk(n, n, cls="face_edge_sweep_res0", sample={"lon": lon, "lat": lat, "res": 0, "exact_face": True})
-    ctx.col.notes.append(f"face sweep: {N} positions per edge x {len(offsets)} offsets (1e-9..1e-3 rad both sides)")
+    ctx.col.notes.append(f"face sweep: {N} positions per edge x {len(offsets)} offsets (3e-9..1e-3 rad both sides; ties within 1e-9 rad accepted)")
 
 
 # ---- many points just inside every edge of a cell ------------------------------------------------------------------
